@@ -57,17 +57,17 @@ theorem alt_inB_totals (npop : Nat) (sel : List (Nat × GtRes))
   simp only [Function.comp]
   omega
 
-theorem map_succ_pred (l : List Nat) : (l.map (· + 1)).map (· - 1) = l := by
+theorem cons_map_succ_pred (l : List Nat) : (l.map (· + 1)).map (· - 1) = l := by
   rw [List.map_map]
   have : ((· - 1) ∘ (· + 1) : Nat → Nat) = id := by funext x; simp
   rw [this, List.map_id]
 
-theorem getD_map_succ : ∀ (s : List Nat) (j : Nat), j < s.length → (s.map (· + 1)).getD j 0 = s.getD j 0 + 1
+theorem cons_getD_map_succ : ∀ (s : List Nat) (j : Nat), j < s.length → (s.map (· + 1)).getD j 0 = s.getD j 0 + 1
   | [], j, h => by simp at h
   | v :: s, 0, _ => by simp
-  | v :: s, j + 1, h => by simpa using getD_map_succ s j (by simpa using h)
+  | v :: s, j + 1, h => by simpa using cons_getD_map_succ s j (by simpa using h)
 
-theorem zipWith_le_all : ∀ (t pt : List Nat), t.length = pt.length →
+theorem cons_zipWith_le_all : ∀ (t pt : List Nat), t.length = pt.length →
     (List.zipWith (fun t m => decide (m ≤ t)) t pt).all id = true →
     ∀ j, j < pt.length → pt.getD j 0 ≤ t.getD j 0
   | [], [], _, _, j, hj => by simp at hj
@@ -75,7 +75,7 @@ theorem zipWith_le_all : ∀ (t pt : List Nat), t.length = pt.length →
     simp only [List.zipWith_cons_cons, List.all_cons, id, Bool.and_eq_true, decide_eq_true_eq] at h
     cases j with
     | zero => simpa using h.1
-    | succ j => simpa using zipWith_le_all t pt (by simpa using hl) h.2 j (by simpa using hj)
+    | succ j => simpa using cons_zipWith_le_all t pt (by simpa using hl) h.2 j (by simpa using hj)
   | [], _ :: _, hl, _, _, _ => by simp at hl
   | _ :: _, [], hl, _, _, _ => by simp at hl
 
@@ -127,10 +127,10 @@ theorem projected_sum_one [CharZero α] (cfg : SiteCfg) (pt t a : List Nat) (hq 
     (by
       intro j hj
       have hj' : j < pt.length := by simpa using hj
-      rw [getD_map_succ _ _ hj', getD_map_succ _ _ (by omega)]
+      rw [cons_getD_map_succ _ _ hj', cons_getD_map_succ _ _ (by omega)]
       have := hle j hj'
       omega)
-  rw [map_succ_pred, map_succ_pred] at this
+  rw [cons_map_succ_pred, cons_map_succ_pred] at this
   exact this
 
 /-- Each counted record contributes total weight exactly one. -/
@@ -155,7 +155,7 @@ theorem contrib_sum_one [CharZero α] (cfg : SiteCfg) (hc : CfgOk cfg) (gts : Li
       rw [hnp pt hq]; simp [calledTotals_eq]
     exact projected_sum_one cfg pt _ _ hq hlen
       (alt_inB_totals _ _ (popSum_alt_le_called cfg.map cfg.cols gts hk))
-      (zipWith_le_all _ _ hlen hall)
+      (cons_zipWith_le_all _ _ hlen hall)
 
 theorem recContrib_sum [CharZero α] (cfg : SiteCfg) (hc : CfgOk cfg) (r : Rec) (hwf : RecWf cfg r)
     (hok : recOk cfg r = true) :
